@@ -140,6 +140,9 @@ func (s *TimeCodeSEI) Payload() []byte {
 // String returns string representation of TimeCodeSEI.
 func (s *TimeCodeSEI) String() string {
 	msgType := SEIType(s.Type())
+	if len(s.Clocks) == 0 {
+		return fmt.Sprintf("%s, size=%d", msgType, s.Size())
+	}
 	msg := fmt.Sprintf("%s, size=%d, time=%s", msgType, s.Size(), s.Clocks[0].String())
 	if len(s.Clocks) > 1 {
 		for i := 1; i < len(s.Clocks); i++ {
